@@ -80,3 +80,17 @@ package main
 //@   loop 2: invariant forall k desync.ChunkID :: $kept[k] ==> has(ids, k)
 //@   assert@loop2.iterend $kept[c.ID]
 //@   oncall Prune: requires forall k desync.ChunkID :: $kept[k] ==> has($arg1, k)
+
+// ---------------------------------------------------------------------------- C03
+
+//# per-store options (skip-verify among them) apply to a store only when the glob match of the configured
+//# pattern against that store's location - both normalised the same way - says so; being located below a
+//# configured store is not a match
+//@ ghost var $matched bool
+//@ func locationMatch
+//@   prop C03
+//@   safety none
+//@   ghost@entry $matched = false
+//@   ghost@after:Match $matched = $r0
+//@   oncall Match: requires ($arg0 == trimSuffix(pattern, "/") && $arg1 == trimSuffix(loc, "/")) || ($arg0 == absOf(pattern) && $arg1 == absOf(loc))
+//@   assert@returned $ret0 ==> $matched
